@@ -226,7 +226,8 @@ def fam_specs(fams, tier):
             out += WAIT_SPECS
         elif f == "nest":
             out += [("nest_join_join", "x", 3), ("nest_join_merge", "x", 3), ("nest_merge_groups", "x", 3),
-                    ("nest_group_join", "x", 3), ("nest_race_join", "x", 3), ("nest_chain_merge", "x", 3)]
+                    ("nest_group_join", "x", 3), ("nest_race_join", "x", 3), ("nest_chain_merge", "x", 3),
+                    ("nest_merge_merge", "x", 3)]
     return out
 
 
